@@ -123,6 +123,10 @@ func c02Exec(env *stick.Env, src string, ctx map[string]stick.Value, desc string
 	if pan != "" {
 		return core.Violation("panic", desc+" panicked: "+pan)
 	}
+	// history: the same execution a second time on the same environment is total too
+	if _, _, pan2 := tryExec(env, name, ctx); pan2 != "" {
+		return core.Violation("panic", desc+" panicked when executed a second time on the same environment: "+pan2)
+	}
 	r := core.Okay(true, "ok "+out)
 	r.Cnt = map[string]int64{"rendered": 1}
 	if err != nil {
